@@ -71,7 +71,10 @@ def run_cmd(args, env_extra, probe_out, timeout=600):
         pre = ["valgrind", "-q", "--error-limit=no", "--leak-check=no", "--num-callers=30", "--fullpath-after=", "--log-file=" + vglog]
         env["PYTHONMALLOC"] = "malloc"
         timeout *= 6
-    p = subprocess.run(pre + [sys.executable, "-m", "wv.subrun"] + args, env=env, stdout=subprocess.PIPE, stderr=subprocess.PIPE, timeout=timeout)
+    try:
+        p = subprocess.run(pre + [sys.executable, "-m", "wv.subrun"] + args, env=env, stdout=subprocess.PIPE, stderr=subprocess.PIPE, timeout=timeout)
+    except subprocess.TimeoutExpired:
+        return -999, b"", "no result within %d s" % timeout
     return p.returncode, p.stdout, p.stderr.decode(errors="replace")[-1500:]
 
 
@@ -338,6 +341,35 @@ def build_input(kind, rng, tmp):
                 sim.doc.records = []
                 sim.doc.write(sim.vcf)
             fasta, bam, vcf = sim.fasta, sim.bams[0], sim.vcf
+            if rng.random() < 0.6:
+                # one read whose aligned part is shorter than k (an adapter-trimmed or mostly soft-clipped read)
+                import pysam
+
+                src = pysam.AlignmentFile(bam)
+                hdr = src.header.to_dict()
+                recs = list(src)
+                src.close()
+                a = pysam.AlignedSegment(pysam.AlignmentHeader.from_dict(hdr))
+                a.query_name = "tiny"
+                a.reference_id = 0
+                a.reference_start = recs[len(recs) // 2].reference_start
+                a.mapping_quality = 60
+                a.flag = 0
+                if rng.random() < 0.5:
+                    a.cigartuples = [(0, 4)]
+                    a.query_sequence = "ACGT"
+                    a.query_qualities = pysam.qualitystring_to_array("IIII")
+                else:
+                    a.cigartuples = [(0, 3), (4, 40)]
+                    a.query_sequence = "ACG" + "T" * 40
+                    a.query_qualities = pysam.qualitystring_to_array("I" * 43)
+                a.set_tag("RG", recs[0].get_tag("RG"))
+                recs.insert(len(recs) // 2, a)
+                bam = os.path.join(tmp, "with_short_read.bam")
+                with pysam.AlignmentFile(bam, "wb", header=hdr) as out:
+                    for x in recs:
+                        out.write(pysam.AlignedSegment.fromstring(x.to_string(), out.header))
+                pysam.index(bam)
         kk, ww = rng.choice([(7, 25), (5, 10), (9, 25), (7, 0)])
 
         def make(outdir):
@@ -389,7 +421,8 @@ def run_case(idx, rng, tier, lane):
             first_outdir = first_outdir or outdir
             env = dict(env)
             env["WV_PROBE"] = ",".join(probe_names)
-            rc, stdout, err = run_cmd(args[:1] + extra + args[1:], env, probe_out)
+            # `learn` finishes within seconds on these inputs (a minute under valgrind): a generous bound per run
+            rc, stdout, err = run_cmd(args[:1] + extra + args[1:], env, probe_out, timeout=(120 if kind.startswith("learn") else 600))
             counters["subprocess_runs"] = counters.get("subprocess_runs", 0) + 1
             vglog = env.get("WV_VGLOG")
             if vglog:
@@ -407,6 +440,9 @@ def run_case(idx, rng, tier, lane):
                     if k not in seen_k:
                         seen_k.add(k)
                         viol.append({"mech": k, "msg": "%s under valgrind memcheck: %s" % (kind, r["text"][:1500])})
+            if rc == -999:
+                viol.append({"mech": "no-result-within-bound:" + kind, "msg": "%s under %s: %s (other runs of this input take seconds)" % (" ".join(args[:3]), label, err)})
+                break
             if rc != 0:
                 viol.append({"mech": "nonzero-exit:" + kind, "msg": "%s exited %d under %s: %s" % (" ".join(args[:3]), rc, label, err[-600:])})
                 break
@@ -420,7 +456,7 @@ def run_case(idx, rng, tier, lane):
                 else:
                     contents[name] = norm_text(o)
             results[label] = contents
-        if results and not any(v["mech"].startswith("nonzero-exit") for v in viol):
+        if results and not any(v["mech"].startswith(("nonzero-exit", "no-result")) for v in viol):
             labels = list(results)
             base = results[labels[0]]
             counters["inputs_compared"] = counters.get("inputs_compared", 0) + 1
